@@ -25,8 +25,8 @@ def _cellval(ctx, vkind, name):
     raise ValueError(vkind)
 
 
-def assign_nd(ctx, shape, lkinds, kinds, rhs='scalar', via='setitem', inplace=True, cast=False, dkind='f', vkind='f', position=False, order=None, layout=None):
-    a, ref, dims, labels = build(ctx, shape, lkinds, dkind, order=order, layout=layout)
+def assign_nd(ctx, shape, lkinds, kinds, rhs='scalar', via='setitem', inplace=True, cast=False, dkind='f', vkind='f', position=False, order=None, layout=None, prime=False):
+    a, ref, dims, labels = build(ctx, shape, lkinds, dkind, order=order, layout=layout, prime=prime)
     attrs = {'units': 'm', 'hist': [1, 2]}
     a.attrs.update(attrs)
     idx = []
@@ -116,6 +116,13 @@ def assign_nd(ctx, shape, lkinds, kinds, rhs='scalar', via='setitem', inplace=Tr
             inplace = True
         else:
             f = lambda: a.put(d_, value, inplace=inplace, indexing='position' if position else None, **kw)
+    elif via in ('put-axis-name', 'put-axis-pos', 'put-axis-neg'):
+        # one indexed dimension, designated through axis= by name, position or negative position
+        nf = [(j, i) for j, (i, k) in enumerate(zip(idx, kinds)) if k != 'full']
+        assert len(nf) == 1
+        j, i1 = nf[0]
+        axarg = {'put-axis-name': dims[j], 'put-axis-pos': j, 'put-axis-neg': j - len(dims)}[via]
+        f = lambda: a.put(i1, value, axis=axarg, inplace=inplace, indexing='position' if position else None, **kw)
     else:
         f = lambda: a.put(key, value, inplace=inplace, indexing='position' if position else None, **kw)
     r = ctx.call(f)
@@ -207,6 +214,64 @@ def assign_mask_nd(ctx, shape, rhs, via, inplace, dkind='f', vkind='f', cast=Fal
     if not inplace:
         oks.append(same(ctx, a, ref))
     return ctx.done(ctx.AND(*oks), [ctx.observe(res), ctx.observe(a)], inplace=True)
+
+
+def assign_tol(ctx, n, form, via, lkind='f', inplace=True):
+    """assignment through a nearest-neighbour lookup (nloc / tol=): exactly the cell of the nearest label is written, and only when it
+    lies within the tolerance"""
+    labels = ctx.labels(lkind, n, 'l')
+    cells = ctx.cells('f', 2 * n, 'v')
+    a = ctx.mk(['x', 'y'], [labels, ['p', 'q']], cells, lkinds=[lkind, 'U'])
+    ref = Ref(['x', 'y'], [labels, ['p', 'q']], cells)
+    nq = 1 if form == 'scalar' else 2
+    qs = [ctx.real('q%d' % j) for j in range(nq)]
+    tol = None
+    if via != 'nloc':
+        tol = ctx.real('tol')
+        ctx.assume(tol >= 0)
+    v = ctx.real('rhs')
+
+    def dist(l, q):
+        d = l - q
+        return ctx.symx.ite(d >= 0, d, -d) if ctx.sym else abs(d)
+    hits = []
+    for q in qs:
+        ds = [dist(l, q) for l in labels]
+        # the nearest label must be unique for the oracle to be definite
+        best = None
+        for i in range(n):
+            if ctx.AND(*[ds[i] < ds[k] for k in range(n) if k != i]):
+                best = i
+        if best is None:
+            ctx.assume(False)
+        hits.append(best if (tol is None or not bool(ds[best] > tol)) else None)
+    if len(hits) == 2 and hits[0] is not None and hits[0] == hits[1]:
+        pass
+    idx = qs[0] if form == 'scalar' else list(qs)
+    if via == 'nloc':
+        def f():
+            a.nloc[idx] = v
+            return a
+        inplace = True
+    elif via == 'put-tol':
+        f = lambda: a.put(idx, v, tol=tol, axis='x', inplace=inplace)
+    else:
+        f = lambda: a.put({'x': idx}, v, tol=tol, inplace=inplace)
+    r = ctx.call(f)
+    if any(h is None for h in hits):
+        ok = ctx.AND(r == ('exc', 'IndexError'), same(ctx, a, ref))
+        return ctx.done(ok, [r[1] if r[0] != 'ok' else None, ctx.observe(a)], inplace=True)
+    if r[0] != 'ok':
+        return ctx.done(False, r[1])
+    res = a if inplace else r[1]
+    exp = list(cells)
+    for h in hits:
+        exp[2 * h] = v
+        exp[2 * h + 1] = v
+    oks = [same(ctx, res, Ref(['x', 'y'], [labels, ['p', 'q']], exp))]
+    if not inplace:
+        oks.append(same(ctx, a, ref))
+    return ctx.done(ctx.AND(*oks), [ctx.observe(res)], inplace=True)
 
 
 def cast_pairs(ctx, akind, vkind, cast, via, inplace=True, rhs='scalar'):
@@ -403,6 +468,32 @@ def templates():
         add('layout-%s-cast' % layout, 'assign_nd', cost=3, shape=[2, 2], lkinds=['i', 'i'], kinds=['scalar', 'full'], rhs='scalar', via='put', inplace=True, cast=True, dkind='i', vkind='f', layout=layout)
         for via, inplace in (('setitem', True), ('put', False)):
             add('layout-%s-mask-%s' % (layout, via), 'assign_mask_nd', cost=2, shape=[2, 2], rhs='scalar', via=via, inplace=inplace, layout=layout)
+    # operands whose axes have answered is_monotonic() before (cached state must not matter), every label order
+    for lk, order in (('i', 'dec'), ('f', 'dec'), ('i', 'inc'), ('i', None), ('U', None)):
+        for kind in ('scalar', 'list2', 'slice'):
+            if kind == 'slice' and (lk == 'U' or order is None):
+                continue
+            for via, inplace in (('setitem', True), ('put', False)):
+                add('primed-%s-%s-%s-%s' % (lk, order, kind, via), 'assign_nd', cost=2, shape=[3], lkinds=[lk], kinds=[kind], rhs='scalar', via=via, inplace=inplace, order=order, prime=True)
+    add('primed-2d', 'assign_nd', cost=4, shape=[3, 2], lkinds=['f', 'U'], kinds=['scalar', 'list2'], rhs='array', order='dec', prime=True)
+    # the indexed dimension designated through axis= (name, position, negative position)
+    for via in ('put-axis-name', 'put-axis-pos', 'put-axis-neg'):
+        for j in (0, 1):
+            for kind in ('scalar', 'list2', 'mask'):
+                for position in (False, True):
+                    if position and kind == 'mask' and j == 0:
+                        continue
+                    kinds = ['full', 'full']
+                    kinds[j] = kind
+                    add('%s-dim%d-%s-%s' % (via, j, kind, 'pos' if position else 'label'), 'assign_nd', cost=2, shape=[3, 3], lkinds=['i', 'i'], kinds=kinds, rhs='scalar', via=via,
+                        inplace=(kind != 'list2'), position=position)
+    # assignment through nearest-neighbour lookups
+    for via in ('nloc', 'put-tol', 'putdict-tol'):
+        for form in ('scalar', 'list'):
+            for n in (2, 3):
+                add('tol-%s-%s-n%d' % (via, form, n), 'assign_tol', 'quick' if n == 2 or form == 'scalar' else 'thorough', cost=3 if form == 'scalar' else 12, n=n, form=form, via=via)
+    add('tol-int-axis', 'assign_tol', cost=3, n=2, form='scalar', via='put-tol', lkind='i')
+    add('tol-notinplace', 'assign_tol', cost=3, n=2, form='scalar', via='put-tol', inplace=False)
     # positional
     for kinds in (('scalar',), ('list2',), ('mask',), ('slice',)):
         add('pos-1d-%s' % kinds[0], 'assign_nd', cost=2, shape=[3], lkinds=['U'], kinds=list(kinds), rhs='scalar', position=True)
